@@ -28,13 +28,15 @@ impl<const B: Word> EstimatedLog2 for Repr<B> {
         } else {
             B.log2_bounds()
         };
-        let e = self.exponent as f32;
+        // `exponent as f32` is inexact beyond 2^24 and the one-ulp widening below does not cover
+        // that error plus the two f32 roundings; f64 keeps all of them far below an f32 ulp.
+        let e = self.exponent as f64;
         let (lb, ub) = if self.exponent >= 0 {
-            (logs_lb + e * logb_lb, logs_ub + e * logb_ub)
+            (logs_lb as f64 + e * logb_lb as f64, logs_ub as f64 + e * logb_ub as f64)
         } else {
-            (logs_lb + e * logb_ub, logs_ub + e * logb_lb)
+            (logs_lb as f64 + e * logb_ub as f64, logs_ub as f64 + e * logb_lb as f64)
         };
-        (next_down(lb), next_up(ub))
+        (next_down(lb as f32), next_up(ub as f32))
     }
 
     fn log2_est(&self) -> f32 {
